@@ -17,10 +17,10 @@ from tie.framework import TieBroken, g_N, g_bool, g_list, g_opt, run_impl_parall
 PROP = "C03"
 IMPORTS = ("From JV Require Import Lib.Base Model.C03ExnFlow Spec.C03ChannelSpec Gen.C03ExnIR Model.C03Instance Corr.C03Judge.\n"
            "Open Scope N_scope.")
-RULE = ("one case = (parser shape, exit_on_error, parse method, input[, up to two earlier calls on the same parser object]). Seven parser shapes (one with parser_mode='json'; (basic typed options incl. nested "
+RULE = ("one case = (parser shape, exit_on_error, parse method, input[, up to two earlier calls on the same parser object]). Seven parser shapes (basic typed options incl. nested "
         "keys/Any/Union/Enum; subclass types incl. Type[]/Callable/List/Dict of classes; dataclass types incl. List/Dict/nested; "
         "required subcommands with their own --cfg; plain argparse type= callables/choices/nargs/FileType; Path types + "
-        "ActionParser), optionally with a default config file. Inputs from a grammar: option names known / unknown / malformed "
+        "ActionParser; the basic shape again with parser_mode='json'), optionally with a default config file. Inputs from a grammar: option names known / unknown / malformed "
         "(dotted, empty segments, '+' suffix, sub-keys of subclass/dict/dataclass arguments, .help, class_path/init_args/"
         "dict_kwargs) x values well- and ill-formed for the declared type (broken JSON/YAML, anchors and self-referential "
         "aliases, tags, NUL bytes, non-importable / non-class / malformed import paths, wrong-typed class_path/init_args, "
@@ -42,7 +42,7 @@ ASSUMPTIONS = [
     "exceptions Python raises implicitly at arbitrary expressions (AttributeError/TypeError/KeyError/IndexError/RecursionError/"
     "MemoryError) are covered only by the fuzz, except the two observed ones listed in IMPLICIT_SITES",
     "termination is not in the theorem (the fuzz turns a call exceeding 8 s into the observation Hung)",
-    "parser_mode='yaml'; no jsonnet/toml/omegaconf loaders, URL/fsspec paths, completions, deprecated error_handler, "
+    "parser_mode='yaml' (and 'json' for one parser shape, judged against the yaml-mode IR: JSONDecodeError takes the place of YAMLError); no jsonnet/toml/omegaconf loaders, URL/fsspec paths, completions, deprecated error_handler, "
     "JSONARGPARSE_DEBUG unset, stdin closed; functions behind get_class_parser (signature inspection) are summarised (BOUNDARY)",
     "config objects handed to parse_object are dicts or Namespaces (the declared parameter type); argv items are str",
     "user code run during parsing (registered deserialisers, link compute functions, plain type= callables) keeps to its documented "
@@ -51,7 +51,7 @@ ASSUMPTIONS = [
 EXHAUSTIVE = {"quick": False, "thorough": False}
 FINDING_CLASSES = dict(T.FINDING_KEYS)
 META = {
-    "level_text": "proof (partial): analysis soundness for all IR programs + single-channel theorem over all executions of the regenerated IR, guarded by 22 finding site classes; implicit runtime exceptions and termination by correspondence only",
+    "level_text": "proof (partial): analysis soundness for all IR programs + single-channel theorem over all executions of the regenerated IR, guarded by 23 finding site classes; implicit runtime exceptions and termination by correspondence only",
     "level_note": (
         "Proved in Coq: (1) C03_analysis_sound — for every exception-flow IR program, table passing the executable post-fixpoint "
         "check, mode and function, every raise site that an execution of the nondeterministic big-step semantics lets escape is in "
@@ -445,6 +445,10 @@ def directed():
         add("basic", "parse_env", {"APP_L": t})
         add("basic", "parse_env", {"APP_CFG": "case.yaml"}, files={"case.yaml": t})
         add("basic", "parse_args", [], dcf=t)
+    add("json", "parse_string", "9" * 4400)                                        # json-int-digit-limit
+    add("json", "parse_path", "case.yaml", files={"case.yaml": '{"a": %s}' % ("9" * 4400)})
+    add("json", "parse_string", '{"a": [')
+    add("json", "parse_args", ['--l=[1, "x"]'])
     # the channels themselves
     add("basic", "parse_args", ["--a=x"])
     add("basic", "parse_args", ["--zz=1"])
